@@ -359,15 +359,10 @@ theorem loopE_spec (order : List Int) (values : List Int) (e : Entry) :
     cases hk : kills order v e <;> simp
 
 /-- an entry is zeroed by some round of the loop iff its row has a negative order or its column is not
-strictly later -/
-theorem killed_iff (order : List Int) (e : Entry) (hrow : e.row < order.length) :
-    (∃ v ∈ unique order, kills order v e = true) ↔
+strictly later — for any list of loop values that contains the order of the entry's row -/
+theorem killed_iff_of_mem (order values : List Int) (e : Entry) (hmem : order.getD e.row 0 ∈ values) :
+    (∃ v ∈ values, kills order v e = true) ↔
       (order.getD e.row 0 < 0 ∨ order.getD e.col 0 ≤ order.getD e.row 0) := by
-  have hmem : order.getD e.row 0 ∈ unique order := by
-    unfold unique
-    rw [List.mem_eraseDups]
-    rw [List.getD_eq_getElem?_getD, List.getElem?_eq_getElem hrow]
-    simp
   constructor
   · rintro ⟨v, _, hk⟩
     unfold kills at hk
@@ -386,6 +381,18 @@ theorem killed_iff (order : List Int) (e : Entry) (hrow : e.row < order.length) 
     · rcases h with h | h
       · exact absurd h hneg
       · simp [hneg, h]
+
+theorem mem_unique_row (order : List Int) (e : Entry) (hrow : e.row < order.length) :
+    order.getD e.row 0 ∈ unique order := by
+  unfold unique
+  rw [List.mem_eraseDups]
+  rw [List.getD_eq_getElem?_getD, List.getElem?_eq_getElem hrow]
+  simp
+
+theorem killed_iff (order : List Int) (e : Entry) (hrow : e.row < order.length) :
+    (∃ v ∈ unique order, kills order v e = true) ↔
+      (order.getD e.row 0 < 0 ∨ order.getD e.col 0 ≤ order.getD e.row 0) :=
+  killed_iff_of_mem order (unique order) e (mem_unique_row order e hrow)
 
 theorem mem_entriesOf (n : Nat) (edge : Nat → Nat → Bool) (e : Entry) :
     e ∈ entriesOf n edge ↔ e.row < n ∧ e.col < n ∧ edge e.row e.col = true ∧ e.keep = true := by
